@@ -290,10 +290,10 @@ func engineC49(c *vctx) error {
 	for _, s := range []string{"", "B", "b", "k", "K", "1", "1B", "1b", "1k", "1K", "1m", "1M", "1g", "1G", "1t", "1T", "1x", "1KB", "1KiB", "1 K", " 1K", "-1", "-1K", "-0", "-0K", "+1K", "+5",
 		"9007199254740991K", "9007199254740992K", "9007199254740993K", "8796093022207M", "8796093022208M", "8589934591G", "8589934592G", "8388607T", "8388608T",
 		"9223372036854775807B", "9223372036854775807b", "9223372036854775808B", "9223372036854775807K", "4611686018427387904K", "18014398509481984K", "18014398509481983K",
-		"-9223372036854775808", "-9223372036854775808B", "-9223372036854775808K", "-9223372036854775808T", "-9007199254740992K", "-1T", "1TT", "1.5K", "1_0K", "0K", "0T", "00010K", "1é", "1\xff", "1Kk", "kK"} {
+		"-9223372036854775808", "-9223372036854775808B", "-9223372036854775808K", "-9223372036854775808T", "-9007199254740992K", "20000000000000000k", "18014398509481985K", "36028797018963968K", "17592186044416M", "17592186044417m", "17179869184G", "17179869185g", "16777216T", "16777217t", "25165824T", "9223372036854775807T", "-1T", "1TT", "1.5K", "1_0K", "0K", "0T", "00010K", "1é", "1\xff", "1Kk", "kK"} {
 		doBytes(s)
 	}
-	for _, s := range []string{"unlimited", "Unlimited", "unlimited ", " unlimited", "unlimite", "unlimitedd", "-1", "0", "1", "+1", "-0", "10", "1.0", "", "0x1", "1_0"} {
+	for _, s := range []string{"unlimited", "Unlimited", "unlimited ", " unlimited", "unlimite", "unlimitedd", "-1", "0", "1", "+1", "-0", "10", "1.0", "", "0x1", "1_0", "010", "08", "0o17", "0b11", "0X1F", "017", "-010", "+0x10", "1_000_000", "0_1"} {
 		doCount(s)
 	}
 	for _, s := range []string{"", "1/1", "1/2", "2/2", "3/2", "0/1", "1/0", "0/0", "1/256", "256/256", "255/256", "1/257", "257/257", "257/256", "256/255", "1/255", "128/255", "1", "1/2/3", "/", "1/", "/1", "//", "-1/2", "1/-2",
@@ -396,6 +396,15 @@ func engineC49(c *vctx) error {
 			}
 			v := (uint64(1) << (63 - sh)) + uint64(rng.intn(5)) - 2
 			doBytes(sign() + strconv.FormatUint(v, 10) + u)
+			// products at and beyond 2^64 (low 64 bits may look like a valid positive size)
+			if sh > 0 {
+				w := (uint64(1) << (64 - sh)) * uint64(1+rng.intn(3)) + uint64(rng.intn(1<<sh))*uint64(rng.intn(2))
+				if w > math.MaxInt64 {
+					w = math.MaxInt64 - uint64(rng.intn(1000))
+				}
+				doBytes(strconv.FormatUint(w, 10) + u)
+				doBytes(strconv.FormatUint((uint64(1)<<(63-sh))+rng.next()%(uint64(1)<<(63-sh)), 10) + u)
+			}
 		}
 		doPrint(data.Duration{Years: int(int64(rng.next())) >> uint(rng.intn(64)), Months: rng.intn(3) - 1, Days: int(int64(rng.next())) >> uint(rng.intn(64)), Hours: rng.intn(100) - 50})
 		// flags
